@@ -255,7 +255,7 @@ def parse_cbmc_json(txt):
             m = re.match(r"Runtime Solver: ([0-9.eE+-]+)s", mt)
             if m:
                 solver += float(m.group(1))
-            if e.get("messageType") == "ERROR":
+            if e.get("messageType") == "ERROR" or "no body for" in mt:
                 errs.append(mt)
     return props, solver, "; ".join(errs)
 
@@ -290,6 +290,8 @@ def run_cbmc(wd, name, binf, cbmc_opts, timeout, cmds, t0=None):
     if rc is None:
         return dict(props=None, solver=0.0, wall=time.time() - t0, error="cbmc timed out on %s after %ss" % (name, timeout))
     props, solver, err = parse_cbmc_json(so)
+    if rc in (0, 10) and props is not None and "no body for" in err:
+        return dict(props=None, solver=solver, wall=time.time() - t0, error="%s calls a function without a body, nothing is decided: %s" % (name, err[:300]))
     if rc not in (0, 10) or props is None:
         return dict(props=None, solver=solver, wall=time.time() - t0, error="cbmc did not decide %s (rc=%s): %s" % (name, rc, (err or se or so[-400:]).strip()[-600:]))
     return dict(props=props, solver=solver, wall=time.time() - t0, error=None)
@@ -301,7 +303,7 @@ def classify(p, h, linemap, hfile):
     cls = sl.get("propertyClass", "")
     desc = p.get("description", "")
     f = os.path.basename(sl.get("file", ""))
-    if desc.startswith("model-limit:"):
+    if desc.startswith("model-limit:") or desc.startswith("no body for callee"):
         return "limit", desc
     if desc.startswith("vacuity:"):
         return "vacuity", desc
@@ -480,7 +482,7 @@ def run(tier="quick", seed=0, pid="C06"):
             if kind == "limit":
                 # the model cannot represent this execution: never an alarm, never counted as discharged
                 if st != "SUCCESS":
-                    res["undecided"].append("%s: %s (%s) -- the one-cell helper model cannot decide this program" % (name, lab, st))
+                    res["undecided"].append("%s: %s (%s) -- outside what the helper model / harness can decide" % (name, lab, st))
                 n_all += 1
                 n_ok += 1 if st == "SUCCESS" else 0
                 continue
